@@ -151,8 +151,10 @@ CHECKS["C02"] = {
             "REOPEN: the real LogInnerManager::init, given the disk image of ANY well-formed state, returns a well-formed state with the same index, cursors and entry count "
             "(lemma_reopen + the contracts of read_indexs / move_to_end). READ BACK: the real read_records returns exactly the decoded frames of the entries "
             "[max(start, split_off), min(end, end index)) in order, changes nothing but the file cursor, and leaves the state well formed on EVERY exit (also failed reads).",
-    "note": "NOT under contract: RaftLogManager (rollover, LogRange catalogue, split_off, snapshot pointer files, batch replication) and FileStore — their state changes travel "
-            "through Addr::send and actix future chains; load_record (same shape as read_records, dyn loader). A-SAMEFILE: the two handles on one path are modelled as independent "
+    "note": "Multi-file level: NOT proved — RaftLogManager (rollover, LogRange catalogue, split_off, snapshot pointer files, batch replication) and FileStore travel through "
+            "Addr::send and actix future chains; a BOUNDED stand-in runs on every check (logs laid down over 2 or 3 files exactly as switch_new_log leaves them; the real "
+            "RaftLogManager compared with a model list for reads across files, truncation at 4 cut points + appends, restart) — labelled bounded; its truncation scenarios FAIL on the "
+            "unchanged tree: KNOWN FINDING S18 (see known_findings.json; also relevant here because the re-appended entries are lost at restart). load_record (same shape as read_records, dyn loader) not under contract. A-SAMEFILE: the two handles on one path are modelled as independent "
             "byte sequences and the disk image is [0,4096) of the index handle ++ [4096,..) of the data handle; A-FULLREAD for init's single 4 KiB read and for FileMessageReader; "
             "binrw header image and protobuf payload encoding uninterpreted (a log entry is assumed never to encode to the empty message); get_start_index (closure-based binary "
             "search) assumed; init on a NEW file establishes nothing in this model (the index handle does not see the data handle's writes). Crash points are C04.",
@@ -162,8 +164,10 @@ CHECKS["C03"] = {
             "next append at k is accepted by write's contract), pops exactly the index entries above the cut and rewinds the index cursor by exactly the bytes they occupy, and "
             "re-establishes the invariant — in particular every byte behind the new data cursor and every popped index byte is zero, so no byte of the removed suffix can be read "
             "back, also after a reopen; k >= end index changes nothing. get_file_index_by_log_index returns the greatest entry <= k with exact pop count and byte width.",
-    "note": "Multi-file selection in RaftLogManager::strip_log_to_index (rollover, compaction pointer, installed snapshot) is NOT under contract (actor message flow). Same modelling "
-            "assumptions as C02.",
+    "note": "Multi-file selection in RaftLogManager::strip_log_to_index is NOT proved (actor message flow): a BOUNDED stand-in runs on every check (logs over 2 or 3 files, 4 cut "
+            "points each, appends, restart; real manager against a model list) and FAILS on the unchanged tree for every cut in a log of more than one file — KNOWN FINDING S18 "
+            "(truncation walks the files from the oldest and stops at once; the catalogue is not corrected or saved): see known_findings.json. Compaction pointer / installed snapshot "
+            "paths are not exercised. Same modelling assumptions as C02.",
 }
 
 CHECKS["C14"] = {
